@@ -18,8 +18,8 @@ theorem localFn_state (σ : State N) (clo : Closure N) (v : Val N) :
       ((σ.allocCell v).2.allocClosure clo).2 := by
   simp only [State.allocCell, State.allocClosure, State.setCell, listSet_append_len]
 
-theorem localFn_to_assign_sound (hq : QRefl cx Q) {D : List String} {kind kind' : LocalKind} {name : String}
-    {ty : Option Ty} {f : FnBody} (hf : NoRefF (name :: D) f) :
+theorem localFn_to_assign_sound (hq : QRefl cx Q) {D : List DName} {kind kind' : LocalKind} {name : String}
+    {ty : Option Ty} {f : FnBody} (hw : DName.wat name ∉ D) (hf : NoRefF (DName.ref name :: D) f) :
     SoundS Q cx D (.localFn kind name f) (.localAssign kind' [.mk name ty] [.fn f]) := by
   intro N call ρ k env env' σ σ' β hc hs he
   simp only [execS, evalEs, evalE, Res.bind, List.map_cons, List.map_nil, TName.name, Sem.bindLocals, first,
@@ -29,15 +29,19 @@ theorem localFn_to_assign_sound (hq : QRefl cx Q) {D : List String} {kind kind' 
   rw [localFn_state]
   -- both sides: one fresh cell holding the closure, one fresh closure
   have h1 := hs.allocBoth (Val.fn σ.closures.length)
-  have he1 : EnvRel (extBoth β σ σ') D ((name, σ.cells.length) :: env.locals)
-      ((name, σ'.cells.length) :: env'.locals) := (he.2.mono le_extBoth).cons _ extBoth_new
-  have hclo : CRel Q (extBoth β σ σ') (⟨f, (name, σ.cells.length) :: env.locals, []⟩ : Closure N)
+  have he1 : LocOK cx (extBoth β σ σ') D ((name, σ.cells.length) :: env.locals)
+      ((name, σ'.cells.length) :: env'.locals) := (he.loc.mono le_extBoth).cons _ hw extBoth_new
+  have hclo : CRel Q cx (extBoth β σ σ') (⟨f, (name, σ.cells.length) :: env.locals, []⟩ : Closure N)
       ⟨f, env'.locals, []⟩ :=
-    ⟨rfl, name :: D, hq _ _ hf,
-      ((he.2.mono le_extBoth).weaken fun x hx => List.mem_cons_of_mem _ hx).consLeft name _ List.mem_cons_self⟩
+    ⟨rfl, DName.ref name :: D, hq _ _ hf,
+      ((he.loc.mono le_extBoth).weaken (D' := DName.ref name :: D)
+        ⟨fun x hx => List.mem_cons_of_mem _ hx, fun n hn => by
+          cases hn with
+          | tail _ h => exact h⟩).consLeft name _ List.mem_cons_self
+        (fun hm => by cases hm with | tail _ h => exact hw h)⟩
   have h2 := h1.allocClosure hclo
   refine RRel.mono (le_extBoth (σ := σ) (σ' := σ')) ?_
-  refine RRel.ok (A := ACtlS cx D) ⟨he.1, he1⟩ ?_
+  refine RRel.ok (A := ACtlS cx D) ⟨he.va, he1⟩ ?_
   have key := h2.2
   simp only [State.allocClosure, State.allocCell, hs.closure_length] at key ⊢
   exact key
